@@ -1096,11 +1096,14 @@ impl World {
 
     /// `dual`: through the SOCKS listener on [::] (reached over IPv4), whose relay socket is dual-stack too
     async fn assoc(&self, dual: bool) -> Option<(TcpStream, SocketAddr)> {
-        let port = match (dual, self.v6) {
-            (true, Some(v)) => v.socks_port,
-            _ => self.socks_port,
+        // (a machine whose [::] sockets do not take IPv4 peers cannot show this variant: the plain listener is used then)
+        let mut s = match (dual, self.v6) {
+            (true, Some(v)) => match TcpStream::connect(("127.0.0.1", v.socks_port)).await {
+                Ok(s) => s,
+                Err(_) => TcpStream::connect(("127.0.0.1", self.socks_port)).await.ok()?,
+            },
+            _ => TcpStream::connect(("127.0.0.1", self.socks_port)).await.ok()?,
         };
-        let mut s = TcpStream::connect(("127.0.0.1", port)).await.ok()?;
         s.write_all(&[5, 1, 0]).await.ok()?;
         let mut b = [0u8; 2];
         s.read_exact(&mut b).await.ok()?;
